@@ -65,6 +65,10 @@ POPS = {
     "conv1d_w": (2, lambda L, t, a: L.sg.conv1d(t[0], t[1], None, 1, a["p"], 1), lambda x, a: R.conv_nd(x[0], x[1], None, 1, a["p"], 1, 1)),
     "batch_norm_train": (1, lambda L, t, a: L.sg.batch_norm(t[0], None, None, None, None, True, 0.1, 1e-5),
                          lambda x, a: R.batch_norm(x[0], None, None, None, None, True, 0.1, 1e-5)[0]),
+    # inference-mode batch norm whose running statistics are then used (and updated) by a training-mode call on other data before any backward:
+    # the recorded inference node still differentiates the function that was evaluated
+    "batch_norm_eval_then_train": (1, lambda L, t, a: _bn_eval_then_train(L, t, a),
+                                   lambda x, a: R.batch_norm(x[0], None, None, np.zeros(x[0].shape[1]), 0.5 + np.arange(x[0].shape[1], dtype=np.float64), False, 0.5, 1e-5)[0]),
     "unfold2d": (1, lambda L, t, a: L.sg.unfold(t[0], a["k"], 1, a["s"], a["p"]), lambda x, a: R.unfold(x[0], a["k"], 1, a["s"], a["p"])),
     "ce_const": (1, lambda L, t, a: L.sg.cross_entropy(t[0], L.Tensor(np.asarray(a["target"], dtype=np.int64))),
                  lambda x, a: R.cross_entropy(x[0], np.asarray(a["target"]))),
@@ -81,6 +85,18 @@ def _concat_then_mutate(L, t, a):
     lst = [t[0], t[1]]
     out = L.sg.concat(lst, a["dim"])
     lst.reverse(); lst.pop()           # the caller goes on using its list (sliding windows, buffers)
+    return out
+
+
+def _bn_eval_then_train(L, t, a):
+    x = t[0]
+    C = x.shape[1]
+    dt = x.data.dtype
+    rm, rv = L.Tensor(np.zeros(C, dtype=dt)), L.Tensor((0.5 + np.arange(C)).astype(dt))
+    out = L.sg.batch_norm(x, None, None, rm, rv, False, 0.5, 1e-5)
+    other = L.Tensor((np.arange(x.data.size, dtype=np.float64).reshape(x.shape) % 7 * 1.5 - 2.0).astype(dt))
+    if other.data.size // C >= 2:
+        L.sg.batch_norm(other, None, None, rm, rv, True, 0.5, 1e-5)      # same statistics tensors, training mode: they move on
     return out
 
 
@@ -308,6 +324,9 @@ def generate(rng, n_instr, n_leaves, allow_kinks=False, big=False, leaves=None, 
                 if r != 3 or x[1].ndim != 3 or x[1].shape[1] != x[0].shape[1] or x[1].shape[2] > x[0].shape[2] + 2:
                     continue
                 args = {"p": 1}
+            elif op == "batch_norm_eval_then_train":
+                if r < 2 or x[0].size // x[0].shape[1] < 2:
+                    continue
             elif op == "batch_norm_train":
                 if r < 2 or x[0].size // x[0].shape[1] < 2 or np.min(np.var(np.moveaxis(x[0], 1, 0).reshape(x[0].shape[1], -1), axis=1)) < 1e-2:
                     continue
